@@ -120,3 +120,15 @@ func vfSeedPool() {
 		bytesPool.Put(&b)
 	}
 }
+
+// vfPoolScribble does what a concurrent request does to larking's byte pool: it takes a recycled
+// buffer, overwrites its whole capacity and puts it back.
+func vfPoolScribble() {
+	bp := bytesPool.Get().(*[]byte)
+	b := (*bp)[:cap(*bp)]
+	for i := range b {
+		b[i] = 0xEE
+	}
+	*bp = b[:0]
+	bytesPool.Put(bp)
+}
